@@ -20,7 +20,8 @@ LEVEL = 'model_checking'
 
 DOM = (0, 1, 2)
 PAIRS = tuple((k, v) for k in DOM for v in DOM)
-OP_BUDGET = 20          # seconds of wall clock for expanding ONE state (normally a few ms): hang guard only
+OP_BUDGET = 30          # seconds of *CPU time* of the worker for expanding ONE state (normally < 0.5 s): hang guard only
+                        # (CPU time, not wall clock: the verdict must not depend on how loaded the machine is)
 
 
 class Hang(BaseException):
@@ -28,8 +29,9 @@ class Hang(BaseException):
 
 
 class Budget:
-    """Hang guard: a SIGALRM raising Hang (BaseException, so `except Exception` in the code under test cannot
-    swallow it).  Only installed in a main thread (pool workers are)."""
+    """Hang guard: ITIMER_VIRTUAL (user CPU time of this process) raising Hang - a BaseException, so `except
+    Exception` in the code under test cannot swallow it.  Only installed in a main thread (pool workers are).
+    The code under test never blocks (pure dict/set manipulation), so a hang is a busy loop and burns CPU."""
 
     def __init__(self, secs):
         self.secs = secs
@@ -40,16 +42,16 @@ class Budget:
 
     def __enter__(self):
         try:
-            self.old = signal.signal(signal.SIGALRM, self._fire)
-            signal.setitimer(signal.ITIMER_REAL, self.secs)
+            self.old = signal.signal(signal.SIGVTALRM, self._fire)
+            signal.setitimer(signal.ITIMER_VIRTUAL, self.secs)
         except ValueError:          # not the main thread
             self.old = None
         return self
 
     def __exit__(self, *a):
         if self.old is not None:
-            signal.setitimer(signal.ITIMER_REAL, 0)
-            signal.signal(signal.SIGALRM, self.old)
+            signal.setitimer(signal.ITIMER_VIRTUAL, 0)
+            signal.signal(signal.SIGVTALRM, self.old)
         return False
 
 
@@ -392,7 +394,7 @@ class OtoSpec:
             op = cur[0]
             out.append((op, None, (oto_opname(op), 'hang'),
                         [('C17|op:%s|terminates' % oto_opname(op), self.case(hist, op), 'returns',
-                          'no return within the %d s state budget' % OP_BUDGET, None, ())]))
+                          'no return within the %d s CPU budget of the state' % OP_BUDGET, None, ())]))
         return out
 
     def step(self, o, D, op, hist):
@@ -427,7 +429,7 @@ class OtoSpec:
             except Exception as e:
                 r_i = ('exc', type(e).__name__)
             arg_ok = oto_canon(other) == other_before
-            res, succ = [('ok', None)], [oto_seq(Dx, list(dict.items(other)))]
+            res, succ = [('ok', None)], [oto_seq(Dx, list(oto_seq({}, pairs).items()))]   # model of `other`, not the object
         else:
             r_i, arg_ok = oto_apply(cls, x, op)
             res, succ = oto_model(Dx, op, r_i)
@@ -845,7 +847,7 @@ class M2mSpec:
             nm = m2m_opname(op)
             out.append((op, None, (nm, 'hang'),
                         [('C17|op:%s|terminates' % nm, self.case(hist, op), 'returns',
-                          'no return within the %d s state budget' % OP_BUDGET, None, ())]))
+                          'no return within the %d s CPU budget of the state' % OP_BUDGET, None, ())]))
         return out
 
     # ---- oracles ---------------------------------------------------------------------------------------
@@ -1330,7 +1332,7 @@ def fd_shard(arg):
                     fd_check_content(FrozenDict, FrozenHashError, content, t)
     except Hang:
         t.bad('C17|frozen:terminates', {'kind': 'frozen', 'content': [list(p) for p in content], 'check': 'all'},
-              'returns', 'shard exceeded its 900 s budget')
+              'returns', 'shard exceeded its 900 s CPU budget')
     return t
 
 
@@ -1379,7 +1381,7 @@ def run(ctx):
         'remove/del of an absent ManyToMany pair/key may raise KeyError or do nothing; the state must not change',
         'update(pairs with a repeated key) may assign pair by pair or de-duplicate the argument first',
         'a FrozenDict call that would not change a builtin dict may raise TypeError or answer like the dict',
-        'hang guard: SIGALRM after %d s per expanded state (normal cost: milliseconds)' % OP_BUDGET]
+        'hang guard: %d s of worker CPU time per expanded state (normal cost: well under a second)' % OP_BUDGET]
 
 
 def replay(ctx, data):
@@ -1412,5 +1414,5 @@ def replay(ctx, data):
                 if not ok:
                     break
     except Hang:
-        msgs.append('%s: no return within %d s' % (data.get('signature'), OP_BUDGET))
+        msgs.append('%s: no return within %d s of CPU time' % (data.get('signature'), OP_BUDGET))
     return msgs
